@@ -78,6 +78,26 @@ func c10Formats() []*recFormat {
 			OK:   []string{`{"id": "a", "qty": 1, "tags": ["x", "y"]}`, `{"id": "b", "qty": 2, "tags": [], "ts": "2020-01-02", "code": "k1"}`, `{"id": "c", "qty": 3}`, `{"id": "d", "qty": 4, "tags": ["é"], "code": "k2"}`},
 			Fail: map[string][]string{"cast": {`{"id": "e", "qty": "bad"}`, `{"id": "e2", "qty": 1.5}`}, "func": {`{"id": "f", "qty": 6, "ts": "garbage"}`}, "js": {`{"id": "g", "qty": 7, "code": "BAD-secret"}`}},
 			Wrap: func(r []string) string { return "[" + strings.Join(r, ",\n ") + "]" }},
+		// declarations whose own shape is computed from the record: xpath_dynamic built by nested and by one-level function
+		// calls, by a field, inside an array and inside a template; functions of functions of fields
+		{Name: "json-dyn", Schema: `{"parser_settings": {"version": "omni.2.1", "file_format_type": "json"},
+ "transform_declarations": {"FINAL_OUTPUT": {"xpath": "/*", "object": {"id": {"xpath": "id"}, "qty": {"xpath": "qty", "type": "int"},
+   "v_nested": {"xpath_dynamic": {"custom_func": {"name": "concat", "args": [{"const": "val_"}, {"custom_func": {"name": "lower", "args": [{"xpath": "kind"}]}}]}}},
+   "v_flat": {"xpath_dynamic": {"custom_func": {"name": "concat", "args": [{"const": "val_"}, {"xpath": "lkind"}]}}},
+   "v_field": {"xpath_dynamic": {"xpath": "ptr"}},
+   "v_tpl": {"template": "pick"},
+   "v_arr": {"array": [{"xpath_dynamic": {"custom_func": {"name": "concat", "args": [{"const": "list_"}, {"custom_func": {"name": "lower", "args": [{"xpath": "kind"}]}}, {"const": "/*"}]}}}]},
+   "v_obj": {"xpath_dynamic": {"custom_func": {"name": "coalesce", "args": [{"xpath": "optr"}, {"const": "."}]}}, "object": {"k": {"xpath": "kind"}}},
+   "v_fn": {"custom_func": {"name": "upper", "args": [{"custom_func": {"name": "coalesce", "args": [{"xpath": "opt"}, {"custom_func": {"name": "concat", "args": [{"xpath": "id"}, {"xpath": "kind"}]}}]}}]}}}},
+  "pick": {"xpath_dynamic": {"custom_func": {"name": "concat", "args": [{"const": "val_"}, {"custom_func": {"name": "lower", "args": [{"xpath": "kind"}]}}]}}, "type": "int"}}}`,
+			OK: []string{`{"id": "a", "qty": 1, "kind": "A", "lkind": "a", "ptr": "val_b", "val_a": 3, "val_b": 4, "list_a": [1, 2], "list_b": [9]}`,
+				`{"id": "b", "qty": 2, "kind": "B", "lkind": "b", "ptr": "val_a", "val_a": 5, "val_b": 6, "list_a": [], "list_b": [7, 8], "opt": "o"}`,
+				`{"id": "c", "qty": 3, "kind": "C", "lkind": "c", "ptr": "val_c", "val_a": 1, "val_c": 2, "list_c": ["x"], "optr": "sub", "sub": {"kind": "inner"}}`,
+				`{"id": "d", "qty": 4, "kind": "B", "lkind": "a", "ptr": "id", "val_a": 7, "val_b": 8}`,
+				`{"id": "e", "qty": 5, "kind": "A", "lkind": "b", "ptr": "qty", "val_a": 9, "val_b": 10, "list_a": [3]}`},
+			Fail: map[string][]string{"cast": {`{"id": "f", "qty": "bad", "kind": "A", "lkind": "a", "ptr": "id", "val_a": 1}`, `{"id": "g", "qty": 1, "kind": "B", "lkind": "b", "ptr": "id", "val_b": "x"}`},
+				"multi": {`{"id": "h", "qty": 1, "kind": "A", "lkind": "a", "ptr": "m/*", "val_a": 1, "m": [1, 2]}`}},
+			Wrap: func(r []string) string { return "[" + strings.Join(r, ",\n ") + "]" }},
 		// records that carry their own namespace declarations (one URI under two prefixes, a prefix re-declared): what a
 		// record declares is in scope for that record only
 		{Name: "xml-ns", Schema: `{"parser_settings": {"version": "omni.2.1", "file_format_type": "xml"},
@@ -149,7 +169,12 @@ func c10Drive(args []string) int {
 			return 3
 		}
 		f.sch = sch
+		// (every baseline run on a Schema of its own: nothing an earlier record left behind in the Schema object either)
+		fresh := func() {
+			f.sch, _, _ = newSchema([]byte(f.Schema))
+		}
 		for _, x := range f.OK {
+			fresh()
 			t := c10Run(f, []string{x})
 			if len(t) != 2 || !strings.HasPrefix(t[0], "ok|") {
 				fmt.Println("error: pool record does not transform alone:", f.Name, x, t)
@@ -159,6 +184,7 @@ func c10Drive(args []string) int {
 		}
 		for _, rs := range f.Fail {
 			for _, x := range rs {
+				fresh()
 				t := c10Run(f, []string{x})
 				if len(t) != 2 || !strings.HasPrefix(t[0], "failed|") {
 					fmt.Println("error: failing pool record does not fail alone:", f.Name, x, t)
